@@ -64,6 +64,50 @@ theorem js_tree_relex (t : E) (hg : gwfA t = true) (ht : treeOk t = true) :
   obtain ⟨h1, h2, h3, h4⟩ := js_tree_tokens_safe t hg ht
   exact js_token_sep (yield t) h1 h2 h3 h4
 
+/-! ### optional chains: `?.` is never followed by a digit
+
+`?.` directly before a decimal digit is not the punctuator `?.` (ECMA-262 12.8: `OptionalChainingPunctuator ::
+?. [lookahead ∉ DecimalDigit]`): `a?.5:1` is the conditional `a ? .5 : 1`.  The writer contract `adjOk` therefore
+excludes every numeric token behind `?.` (`adj_qdot_num`); the terminal string of a tree never contains that pair,
+since `yieldOpt` writes `?.` only before `(`, `[` or a property name. -/
+
+theorem adjChain_mid (pre : List Tok) (a b : Tok) (post : List Tok) (h : adjChain (pre ++ a :: b :: post) = true) :
+    adjOk a b = true := by
+  induction pre with
+  | nil => simp only [List.nil_append, adjChain, Bool.and_eq_true] at h; exact h.1
+  | cons x r ih =>
+    cases r with
+    | nil => simp only [List.cons_append, List.nil_append, adjChain, Bool.and_eq_true] at h; exact h.2.1
+    | cons y r' =>
+      simp only [List.cons_append, adjChain, Bool.and_eq_true] at h
+      exact ih (by simpa using h.2)
+
+/-- in the terminal string of a derivation tree (optional chains included) no numeric token follows `?.` -/
+theorem js_opt_chain_no_digit_after_qdot (t : E) (hg : gwfA t = true) (ht : treeOk t = true)
+    (pre post : List Tok) (n : Nat) (bd : Bool) : yield t ≠ pre ++ .p "?." :: .num n bd :: post := by
+  intro e
+  have h := (js_tree_tokens_safe t hg ht).2.1
+  rw [e] at h
+  have := adjChain_mid pre _ _ post h
+  rw [Verif.Proofs.C09JsTree.adj_qdot_num] at this
+  exact absurd this (by simp)
+
+/-- the hazard is real: the tokens `a` `?.` `5` `:` `1` are written as `a?.5:1`, which is read back as
+    `a` `?` `.5` `:` `1` -/
+theorem js_qdot_digit_counterexample :
+    String.ofList (emit [.ident "a", .p "?.", .num 5 false, .p ":", .num 1 false]) = "a?.5:1" ∧
+    (lex (emit [.ident "a", .p "?.", .num 5 false, .p ":", .num 1 false])).map (fun l => l.map (·.text)) =
+      some ["a".toList, "?".toList, ".5".toList, ":".toList, "1".toList] := by decide
+
+/-- an optional chain with all three kinds of links, written and read back: `a?.[b].c(d,e)?.f` is not derivable (one
+    `?.` per `opt` node); `a?.[b].c(d,e)` is -/
+example : gwfA (.opt "a" (.call (.dot (.index (.var "a") (.var "b")) "c") [.var "d", .var "e"])) = true ∧
+    treeOk (.opt "a" (.call (.dot (.index (.var "a") (.var "b")) "c") [.var "d", .var "e"])) = true ∧
+    String.ofList (emit (yield (.opt "a" (.call (.dot (.index (.var "a") (.var "b")) "c") [.var "d", .var "e"]))))
+      = "a?.[b].c(d,e)" ∧
+    String.ofList (emit (yield (.cond (.opt "a" (.call (.var "a") [])) (.opt "b" (.dot (.var "b") "c")) (.lit (.num 5)))))
+      = "a?.()?b?.c:5" := by decide
+
 /-- **The expression printer of C01 never glues tokens and its output is in the language.**  For every parser-shaped
     input tree `e` (`wfGo`), every context precedence `p ≤ OpCall` and every fuel: if the printer model `printT`
     (group dropping, literal lowering, `a["b"] → a.b`, `(5).a → 5..a`, …) produces the tree `t` and the names and
